@@ -308,6 +308,9 @@ def run(rep: Report, tier: str):
     rep.rule("C18.partition", "--inject emits n pickles, only the target injected once with the requested flags; out-of-range -> non-zero, nothing written", 2)
     rep.rule("C18.range-guard", "every output write is dominated by the in-range edge of the target test", 1)
     rep.rule("C18.var-threading", "decompile arm threads variable ids / distinct result names; counter and STOP discipline", 4)
+    from .c09 import check_trace_drives_given
+
+    check_trace_drives_given(load_repo(), rep, rule="C18.var-threading")
     rep.rule("C18.payload-encodable", "a text payload --inject accepts also serialises (no failure from dump() after part of the stack was written)", 10)
     from .c15 import check_accepted_is_encodable
 
